@@ -11,6 +11,7 @@ import (
 	"go/token"
 	"go/types"
 	"os"
+	"path/filepath"
 	"sort"
 	"strings"
 
@@ -54,6 +55,7 @@ type Prog struct {
 
 	declCache map[*types.Func]*ast.FuncDecl
 	allWT     *WriteThrough // write-through facts over all repository functions (built on first use)
+	NormLog   []string      // what the source normalisation inlined (or declined to)
 }
 
 func loadEnv() []string {
@@ -98,11 +100,35 @@ func Load(dir, tier string) (*Prog, error) {
 	if len(errs) > 0 {
 		return nil, fmt.Errorf("type/parse errors in %s: %s", dir, strings.Join(errs, "; "))
 	}
+	// source normalisation: helpers the pinned tree does not have are inlined in an in-memory overlay
+	var normLog []string
+	srcDir := dir
+	if os.Getenv("NEAT_NO_NORMALIZE") == "" {
+		overlay, lg := BuildOverlay(pkgs, PinnedFuncs())
+		normLog = lg
+		if d := os.Getenv("NEAT_DUMP_OVERLAY"); d != "" {
+			for name, b := range overlay {
+				_ = os.WriteFile(d+"/"+strings.ReplaceAll(strings.TrimPrefix(name, dir), "/", "_"), b, 0o644)
+			}
+		}
+		if len(overlay) > 0 {
+			// go/packages type-checks every dependency from source as soon as an overlay is given; the
+			// normalised sources are therefore written to a scratch copy of the module's Go files
+			// (outside /repo and /verif, removed right after loading) and loaded from there.
+			scratch, pkgs2, err2 := loadNormalised(dir, mode, overlay)
+			if err2 != nil {
+				normLog = append(normLog, "normalisation abandoned: "+err2.Error())
+			} else {
+				pkgs = pkgs2
+				srcDir = scratch
+			}
+		}
+	}
 	prog, ssaPkgs := ssautil.AllPackages(pkgs, ssa.InstantiateGenerics)
 	prog.Build()
-	p := &Prog{Dir: dir, Tier: tier, Pkgs: pkgs, SSA: prog,
+	p := &Prog{Dir: srcDir, Tier: tier, Pkgs: pkgs, SSA: prog,
 		ByPath: map[string]*packages.Package{}, SSAPk: map[string]*ssa.Package{},
-		Fixtures: map[string]*ssa.Package{}, declCache: map[*types.Func]*ast.FuncDecl{}}
+		Fixtures: map[string]*ssa.Package{}, declCache: map[*types.Func]*ast.FuncDecl{}, NormLog: normLog}
 	for i, pk := range pkgs {
 		p.ByPath[pk.PkgPath] = pk
 		if ssaPkgs[i] == nil {
@@ -418,4 +444,60 @@ func (p *Prog) SrcFuncs() []*ssa.Function {
 		}
 	}
 	return out
+}
+
+// loadNormalised writes the module's Go sources, with the overlay applied, to a scratch
+// directory, loads them and removes the directory (positions keep pointing into it; Prog.Pos
+// strips the prefix, so reports name the same relative paths as /repo).
+func loadNormalised(dir string, mode packages.LoadMode, overlay map[string][]byte) (string, []*packages.Package, error) {
+	scratch, err := os.MkdirTemp("", "neatnorm_")
+	if err != nil {
+		return "", nil, err
+	}
+	defer os.RemoveAll(scratch)
+	err = filepath.Walk(dir, func(path string, fi os.FileInfo, err error) error {
+		if err != nil {
+			return err
+		}
+		rel, _ := filepath.Rel(dir, path)
+		if fi.IsDir() {
+			if fi.Name() == ".git" || rel == "out" {
+				return filepath.SkipDir
+			}
+			return os.MkdirAll(filepath.Join(scratch, rel), 0o755)
+		}
+		if !strings.HasSuffix(path, ".go") && fi.Name() != "go.mod" && fi.Name() != "go.sum" {
+			return nil
+		}
+		b, ok := overlay[path]
+		if !ok {
+			if b, err = os.ReadFile(path); err != nil {
+				return err
+			}
+		}
+		return os.WriteFile(filepath.Join(scratch, rel), b, 0o644)
+	})
+	if err != nil {
+		return "", nil, err
+	}
+	cfg := &packages.Config{Mode: mode, Dir: scratch, Tests: false, Env: loadEnv()}
+	pkgs, err := packages.Load(cfg, "./...")
+	if err != nil {
+		return "", nil, err
+	}
+	if len(pkgs) != ExpectedPackages {
+		return "", nil, fmt.Errorf("the normalised tree has %d packages", len(pkgs))
+	}
+	var errs []string
+	packages.Visit(pkgs, nil, func(p *packages.Package) {
+		if strings.HasPrefix(p.PkgPath, Mod) {
+			for _, e := range p.Errors {
+				errs = append(errs, e.Error())
+			}
+		}
+	})
+	if len(errs) > 0 {
+		return "", nil, fmt.Errorf("the inlined sources do not type-check: %s", strings.Join(errs, "; "))
+	}
+	return scratch, pkgs, nil
 }
